@@ -255,6 +255,16 @@ pub fn short_circuit_const_rhs_folded() {
     kani::cover!(true);
 }
 
+/// the two cases in which a fold to the absorbing constant is tempting, one harness each (quick tier)
+#[kani::proof]
+#[kani::unwind(3)]
+#[kani::stub(alloc::fmt::format, crate::verif_common::stub_format)]
+pub fn short_circuit_and_const_false_rhs_folded() { const_rhs(false, false); kani::cover!(true); }
+#[kani::proof]
+#[kani::unwind(3)]
+#[kani::stub(alloc::fmt::format, crate::verif_common::stub_format)]
+pub fn short_circuit_or_const_true_rhs_folded() { const_rhs(true, true); kani::cover!(true); }
+
 /// if / else: condition once, then only the chosen branch
 fn if_else(fold: bool, const_cond: bool) {
     let kif = 1 << crate::instruction::verif_gate::K_IFELSE;
